@@ -23,16 +23,16 @@ ASSUMPTIONS = ["the reference models are the trusted base; they were written fro
 
 def bounds(tier):
     q = tier == "quick"
-    return {"greedy/roundrobin": f"values 0..6, 1..{6 if q else 8} items, 1..5 bins, descending and ascending presentation",
-            "ff/bf": f"all sequences of 1..{5 if q else 7} items over 0..6 (B=6); dyadic eighths, 1..4 items (B=1)",
-            "ffd/bfd": f"all multisets of 1..{7 if q else 9} items over 0..B for B in (6,12)",
+    return {"greedy/roundrobin": f"values 0..6, 1..{6 if q else 9} items, 1..5 bins, descending and ascending presentation",
+            "ff/bf": f"all sequences of 1..{5 if q else 8} items over 0..6 (B=6); dyadic eighths, 1..4 items (B=1)",
+            "ffd/bfd": f"all multisets of 1..{7 if q else 10} items over 0..B for B in (6,12)",
             "long-thin": "partition: 9..15(24) items over {1,2}, 9..12(16) over {1,2,3}, 9..11(13) over {0,1,5},{2,3,7}, bins {2,3,4,5,7,n,n+1}; packing: 9..14(24) items over {1,2} B=5, {1,2,3} B=7, {2,3,5} B=10, {0,1,4} B=4 in 6 fixed orders; the same multisets as covers with B+2 and 3B",
             "big": "partition values {0,1,2**24+1,2**31+1,2**32+3,2**40+5}; packing B=2**32 letters {1,2**31-1,2**31,2**31+1,2**32-1,2**32} (and divided by 2**32, B=1); covers B in {2**32, 2**32+2, 3*2**31} with letters next to B/3, B/2",
-            "count-sweep": f"every number of bins: packing inputs needing exactly m bins and covers filling exactly m bins for every m in 1..{40 if q else 141}; partition into every k in 1..{24 if q else 71} with k-1, k, k+1, 2k+1 items",
+            "count-sweep": f"every number of bins: packing inputs needing exactly m bins and covers filling exactly m bins for every m in 1..{40 if q else 142}; partition into every k in 1..{24 if q else 72} with k-1, k, k+1, 2k+1 items",
             "halves": "fit heuristics on multiples of 1/2 around B/2 and B for B=7 and B=10: all sequences of 1..4(5), multisets of 5..7(8) in 6 orders",
             "fractional bin size": "covers with B=7.5 (items 1..10) and B=10.5 (items 1..12)",
             "planted covers": "B=12,13,9,101,99: every unordered pair of patterns x multiplicities (40,24)" + ("" if q else ",(100,20),(7,150)") + " (up to ~600 items)",
-            "covers": f"all multisets of 1..{6 if q else 8} items over 1..B+3 for B in (6,12) + 1..{8 if q else 11} items over (1,2,3,4,6) B=12 and (1,2,3) B=6"}
+            "covers": f"all multisets of 1..{6 if q else 9} items over 1..B+3 for B in (6,12) + 1..{8 if q else 12} items over (1,2,3,4,6) B=12 and (1,2,3) B=6"}
 
 
 LONG_PACK = [((1, 2), 9, 24, 5), ((1, 2, 3), 9, 16, 7), ((2, 3, 5), 9, 14, 10), ((0, 1, 4), 9, 14, 4)]
@@ -42,45 +42,45 @@ BIG_LETTERS = (1, 2 ** 31 - 1, 2 ** 31, 2 ** 31 + 1, 2 ** 32 - 1, 2 ** 32)
 def tasks(tier):
     q = tier == "quick"
     ts = []
-    for ch in scopes.chunk_multisets(range(0, 7), 1, 6 if q else 8, 200):
+    for ch in scopes.chunk_multisets(range(0, 7), 1, 6 if q else 9, 200):
         ts.append(("partition", ch, (1, 2, 3, 4, 5)))
-    for ch in spaces.chunked(spaces.sequences(range(0, 7), 1, 5 if q else 7), 3000):
+    for ch in spaces.chunked(spaces.sequences(range(0, 7), 1, 5 if q else 8), 3000):
         ts.append(("fit-seq", ch, 6))
     eighths = [Fraction(i, 8) for i in range(9)]
     for ch in spaces.chunked(spaces.sequences(eighths, 1, 4), 1500):
         ts.append(("fit-dyadic", ch, 1))
     for B in (6, 12):
-        for ch in scopes.chunk_multisets(range(0, B + 1), 1, 7 if q else 9, 1500):
+        for ch in scopes.chunk_multisets(range(0, B + 1), 1, 7 if q else 10, 1500):
             ts.append(("dec", ch, B))
-        for ch in scopes.chunk_multisets(range(1, B + 4), 1, 6 if q else 8, 1500):
+        for ch in scopes.chunk_multisets(range(1, B + 4), 1, 6 if q else 9, 1500):
             ts.append(("cover", ch, B))
     for alpha, B in (((1, 2, 3, 4, 6), 12), ((1, 2, 3), 6)):
-        for ch in scopes.chunk_multisets(alpha, 7, 8 if q else 11, 500):
+        for ch in scopes.chunk_multisets(alpha, 7, 8 if q else 12, 500):
             ts.append(("cover", ch, B))
     # ---- beyond the dense scopes: many items over tiny alphabets, large magnitudes, large planted covers
     for ch in spaces.chunked(scopes.long_thin_multisets(tier), 60):
         ts.append(("partition-long", ch, None))
-    for ch in scopes.chunk_multisets(scopes.BIG_VALUES, 1, 5 if q else 7, 100):
+    for ch in scopes.chunk_multisets(scopes.BIG_VALUES, 1, 5 if q else 8, 100):
         ts.append(("partition", ch, (1, 2, 3, 4)))
     for alpha, lo, hi, B in LONG_PACK:
         for ch in scopes.chunk_multisets(alpha, lo, hi if not q else min(hi, lo + 5), 100):
             ts.append(("fit-long", ch, B))
             ts.append(("cover", ch, B + 2))
             ts.append(("cover", ch, 3 * B))
-    for ch in spaces.chunked(spaces.sequences(BIG_LETTERS, 1, 4 if q else 6), 500):
+    for ch in spaces.chunked(spaces.sequences(BIG_LETTERS, 1, 4 if q else 7), 500):
         ts.append(("fit-seq4", ch, 2 ** 32))
     for ch in spaces.chunked(spaces.sequences([Fraction(v, 2 ** 32) for v in BIG_LETTERS], 1, 4), 500):
         ts.append(("fit-dyadic", ch, 1))
     for Bc in scopes.BIG_BINSIZES:
-        for ch in scopes.chunk_multisets(scopes.threshold_letters(Bc), 1, 5 if q else 7, 400):
+        for ch in scopes.chunk_multisets(scopes.threshold_letters(Bc), 1, 5 if q else 8, 400):
             ts.append(("cover", ch, Bc))
     for Bf, top in ((7.5, 10), (10.5, 12)):
-        for ch in scopes.chunk_multisets(range(1, top + 1), 1, 5 if q else 7, 400):
+        for ch in scopes.chunk_multisets(range(1, top + 1), 1, 5 if q else 8, 400):
             ts.append(("cover", ch, Bf))
     for Bh, letters in scopes.HALVES.items():
-        for ch in spaces.chunked(spaces.sequences(letters, 1, 4 if q else 6), 600):
+        for ch in spaces.chunked(spaces.sequences(letters, 1, 4 if q else 7), 600):
             ts.append(("fit-seq4", ch, Bh))
-        for ch in scopes.chunk_multisets(letters, 5, 7 if q else 9, 600):
+        for ch in scopes.chunk_multisets(letters, 5, 7 if q else 10, 600):
             ts.append(("fit-long", ch, Bh))
     for ch in spaces.chunked((items for items, _, _ in scopes.count_sweep_packing(tier)), 12):
         ts.append(("fit-long", ch, 10))
